@@ -101,6 +101,52 @@ def _mutations(fn: ast.AST, in_wtp: bool, in_manager: bool) -> list:
     return out
 
 
+PAGE_STATE_ATTRS = {"title", "section", "subsection", "cookies", "rev_ht", "expand_stack"}
+PAGE_DEPENDENT_CALLEES = {"core.Wtp._save_value", "core.Wtp.expand", "core.Wtp.expand.expand_recurse", "core.Wtp.parse",
+                          "core.Wtp._encode", "core.Wtp.preprocess_text", "core.Wtp._finalize_expand"}
+
+
+def _stores_page_dependent(ctx, cg: CallGraph, sites: list):
+    """(function, statement, reason) of the first mutation site that stores a value derived from per-page
+    state: a call that reaches cookie allocation / expansion, or a read of a per-page attribute"""
+
+    def stored_exprs(node, kind):
+        if isinstance(node, (ast.Assign, ast.AnnAssign, ast.AugAssign)) and getattr(node, "value", None) is not None:
+            return [node.value]
+        if isinstance(node, ast.Call):
+            return list(node.args) + [k.value for k in node.keywords]
+        return []
+
+    for dotted, node, kind in sites:
+        if not ctx.index.has_func(dotted):
+            continue
+        fn = ctx.index.func(dotted)
+        work = stored_exprs(node, kind)
+        seen = set()
+        hops = 0
+        while work and hops < 12:
+            e = work.pop()
+            hops += 1
+            for n in ast.walk(e):
+                if isinstance(n, ast.Attribute) and n.attr in PAGE_STATE_ATTRS and isinstance(n.value, ast.Name) and n.value.id in ("self", "ctx", "wtp"):
+                    return dotted, node, "reads ctx." + n.attr
+                if isinstance(n, ast.Name) and isinstance(n.ctx, ast.Load) and n.id not in seen:
+                    seen.add(n.id)
+                    for a_ in walk_no_nested(fn):
+                        if isinstance(a_, ast.Assign) and any(isinstance(t, ast.Name) and t.id == n.id for t in a_.targets) \
+                                and a_.lineno <= getattr(node, "lineno", 10**9):
+                            work.append(a_.value)
+            callees = cg.callees_in(dotted, e)
+            reach = set(callees)
+            for c in callees:
+                if not c.startswith("%"):
+                    reach |= cg.closure([c])
+            bad = sorted(reach & PAGE_DEPENDENT_CALLEES)
+            if bad or "%expander" in reach:
+                return dotted, node, "computed by " + (bad[0].split(".")[-1] if bad else "the expander")
+    return None
+
+
 def rule_r1(ctx, cg: CallGraph) -> RuleResult:
     rr = RuleResult("C09.R1", "every context attribute mutated while processing a page is re-initialised per page or per parse", min_instances=18)
     closure = cg.closure(["core.Wtp.expand", "core.Wtp.parse"]) | set(cg.lua_helpers)
@@ -168,7 +214,15 @@ def rule_r1(ctx, cg: CallGraph) -> RuleResult:
                            "mutated while processing a page ({}) but {}; its value leaks into the next page".format(
                                ", ".join(where[:3]), how), first[1].lineno))
         else:
-            rr.informational.append({"UNCLASSIFIED": a, "mutated_in": where[:4]})
+            hit = _stores_page_dependent(ctx, cg, sites)
+            if hit is not None:
+                dotted_, node_, why_ = hit
+                rr.bad(Finding("C09.R1", ctx.index.mod(dotted_.split(".")[0]).relpath, dotted_, unparse(node_)[:80],
+                               "`ctx.{}` is filled while a page is processed with a value that depends on the page ({}), and neither "
+                               "start_page nor parse_encoded re-initialises it: what one page stores is served to the next".format(a, why_),
+                               node_.lineno))
+            else:
+                rr.informational.append({"UNCLASSIFIED": a, "mutated_in": where[:4]})
     # the loadData cache is cleared when a runtime exists
     src = unparse(sp)
     if "self.lua_clear_loaddata_cache()" in src and "self.lua_clear_loaddata_cache is not None" in src:
